@@ -32,6 +32,7 @@ type spec struct {
 	skip     func(Script, Trace) string
 	pre      func(thorough bool, each func(s Script, label string) bool)
 	repeat   bool // thorough: execute every script 3 times (wake-up order at one instant is random)
+	hangMine bool // a case that never finishes (spinning goroutine) violates this property
 }
 
 func knownListed(id string) bool {
@@ -74,6 +75,10 @@ func runOnce(t *testing.T, sp spec, s Script) evid.Outcome {
 	tr := Execute(t, s, sp.leak)
 	o := evid.Outcome{Classes: Classes(s, tr), Summary: summary(s, tr),
 		Counters: map[string]int{"script_ops_executed": tr.OpsDone, "script_ops_that_were_noops": tr.Noops, "deliveries": len(tr.Deliveries), "quiescent_snapshots": len(tr.Snaps), "divider_calls": tr.DivCalls}}
+	if tr.Spin && !sp.hangMine {
+		o.Skip = "a goroutine spins and the case never finishes (decided by C06/C07/C16)"
+		return o
+	}
 	if sp.skip != nil {
 		if r := sp.skip(s, tr); r != "" {
 			o.Skip = r
@@ -231,10 +236,11 @@ func itoa(n int) string {
 
 func TestC06(t *testing.T) {
 	run(t, spec{
-		id:     "C06",
-		rule:   "sparse-arrival scripts (one active priority, alternating, late writers, unbuffered inputs, inputs closing at different times, H = minimum accepted and slightly above, skewed priority values, withheld and batched releases) on v1 and v2, plain and simplified, Fair and Rate; v1 configurations with a zero strategic share are excluded by construction (known finding F4) ; oracle on the owned clock: at a quiescent point with nothing in flight and data waiting something must have been delivered; a priority alone in having data and alone in flight holds all H handlers; releasing one item at a time in the epilogue delivers everything (no wedge); non-trivial = a quiescent point was seen with free handlers, data waiting and items in flight (the discipline waited for a further feedback), or a single priority was active, or an input was unbuffered, or H is the minimum; distinct = distinct script JSON",
-		opts:   GenOpts{Vers: []int{1, 2}, Simple: []bool{false, false, true}, Dividers: libDiv, Sparse: true, NoZero: true, AddRemove: true},
-		checkK: CheckC06,
+		id:       "C06",
+		hangMine: true,
+		rule:     "sparse-arrival scripts (one active priority, alternating, late writers, unbuffered inputs, inputs closing at different times, H = minimum accepted and slightly above, skewed priority values, withheld and batched releases) on v1 and v2, plain and simplified, Fair and Rate; v1 configurations with a zero strategic share are excluded by construction (known finding F4) ; oracle on the owned clock: at a quiescent point with nothing in flight and data waiting something must have been delivered; a priority alone in having data and alone in flight holds all H handlers; releasing one item at a time in the epilogue delivers everything (no wedge); non-trivial = a quiescent point was seen with free handlers, data waiting and items in flight (the discipline waited for a further feedback), or a single priority was active, or an input was unbuffered, or H is the minimum; distinct = distinct script JSON",
+		opts:     GenOpts{Vers: []int{1, 2}, Simple: []bool{false, false, true}, Dividers: libDiv, Sparse: true, NoZero: true, AddRemove: true},
+		checkK:   CheckC06,
 		skip: func(s Script, tr Trace) string {
 			if tr.NewErr != "" {
 				return "configuration rejected by the constructor"
@@ -258,11 +264,12 @@ func TestC06(t *testing.T) {
 
 func TestC07(t *testing.T) {
 	run(t, spec{
-		id:     "C07",
-		repeat: true,
-		rule:   "scripts with all close orders (v1: also inputs removed or replaced instead of closed, with their items still in flight), releases withheld across time steps, inputs left open and silent, v1 GracefulStop issued early / in the middle / late, plain and simplified; oracle: termination observed (Output()/Err() closed, GracefulStop returned) implies every input closed and delivered and nothing unreleased (no Handle running), no Release() panics, Err() yields no error, and at a quiescent point where that condition holds termination has happened; non-trivial = a release or a close was withheld across a time step or drain, or an input stayed open and idle while everything else was finished; distinct = distinct script JSON",
-		opts:   GenOpts{Vers: []int{1, 2}, Simple: []bool{false, false, true}, Dividers: libDiv, NoZero: true, AddRemove: true},
-		check:  CheckC07,
+		id:       "C07",
+		hangMine: true,
+		repeat:   true,
+		rule:     "scripts with all close orders (v1: also inputs removed or replaced instead of closed, with their items still in flight), releases withheld across time steps, inputs left open and silent, v1 GracefulStop issued early / in the middle / late, plain and simplified; oracle: termination observed (Output()/Err() closed, GracefulStop returned) implies every input closed and delivered and nothing unreleased (no Handle running), no Release() panics, Err() yields no error, and at a quiescent point where that condition holds termination has happened; non-trivial = a release or a close was withheld across a time step or drain, or an input stayed open and idle while everything else was finished; distinct = distinct script JSON",
+		opts:     GenOpts{Vers: []int{1, 2}, Simple: []bool{false, false, true}, Dividers: libDiv, NoZero: true, AddRemove: true},
+		check:    CheckC07,
 		skip: func(s Script, tr Trace) string {
 			if tr.NewErr != "" {
 				return "configuration rejected by the constructor"
@@ -282,11 +289,12 @@ func TestC07(t *testing.T) {
 
 func TestC15(t *testing.T) {
 	run(t, spec{
-		id:    "C15",
-		rule:  "priority-lab scripts with a wrapping divider that checks every call (strictly descending configured priorities, dividend <= H, v2 map non-nil) and, per fault plan, corrupts eligible call #k (k drawn 1..40, thorough: enumerated) by adding or removing 1..3 units while keeping the total non-zero; H may be below the constructor's minimum; oracle: contract of every call, v2 New returns ErrDividerBad for a creation fault and ErrHandlersQuantityTooSmall exactly when a share is zero, after a round fault no delivery beyond the items already in the output channel, Err() = ErrDividerBad, in-flight <= H, termination once everything is released; non-trivial = the fault hit a call made with items in flight; distinct = distinct script JSON",
-		opts:  GenOpts{Vers: []int{1, 2}, Simple: []bool{false, false, false, true}, Dividers: allDiv, Fault: true, AnyH: true},
-		check: CheckC15,
-		pre:   enumerateFaults,
+		id:       "C15",
+		hangMine: true,
+		rule:     "priority-lab scripts with a wrapping divider that checks every call (strictly descending configured priorities, dividend <= H, v2 map non-nil) and, per fault plan, corrupts eligible call #k (k drawn 1..40, thorough: enumerated) by adding or removing 1..3 units while keeping the total non-zero; H may be below the constructor's minimum; oracle: contract of every call, v2 New returns ErrDividerBad for a creation fault and ErrHandlersQuantityTooSmall exactly when a share is zero, after a round fault no delivery beyond the items already in the output channel, Err() = ErrDividerBad, in-flight <= H, termination once everything is released; non-trivial = the fault hit a call made with items in flight; distinct = distinct script JSON",
+		opts:     GenOpts{Vers: []int{1, 2}, Simple: []bool{false, false, false, true}, Dividers: allDiv, Fault: true, AnyH: true},
+		check:    CheckC15,
+		pre:      enumerateFaults,
 		nontriv: func(s Script, tr Trace) bool {
 			return tr.FaultCall > 0 && tr.FaultInFlight > 0
 		},
@@ -295,12 +303,13 @@ func TestC15(t *testing.T) {
 
 func TestC16(t *testing.T) {
 	run(t, spec{
-		id:     "C16",
-		repeat: true,
-		rule:   "v1 plain and simplified scripts with Stop() or context cancel inserted at a drawn (thorough: every) script position: before any data, mid-round, with 0..H items in flight and never released, with the output buffer full and nobody reading, producers blocked; oracle: Stop returns within 50 settle quanta of virtual time without any release (a spinning goroutine is caught by the real-time watchdog), afterwards further writes to the inputs produce no output beyond what already sat in the output channel, no Handle call is running, deliveries are an in-order duplicate-free subsequence; non-trivial = Stop/cancel issued with in-flight == H, or while the discipline was blocked on a full output, or before any delivery; distinct = distinct script JSON",
-		opts:   GenOpts{Vers: []int{1}, Simple: []bool{false, false, true}, Dividers: libDiv, StopOps: true},
-		check:  CheckC16,
-		pre:    enumerateStops,
+		id:       "C16",
+		hangMine: true,
+		repeat:   true,
+		rule:     "v1 plain and simplified scripts with Stop() or context cancel inserted at a drawn (thorough: every) script position: before any data, mid-round, with 0..H items in flight and never released, with the output buffer full and nobody reading, producers blocked; oracle: Stop returns within 50 settle quanta of virtual time without any release (a spinning goroutine is caught by the real-time watchdog), afterwards further writes to the inputs produce no output beyond what already sat in the output channel, no Handle call is running, deliveries are an in-order duplicate-free subsequence; non-trivial = Stop/cancel issued with in-flight == H, or while the discipline was blocked on a full output, or before any delivery; distinct = distinct script JSON",
+		opts:     GenOpts{Vers: []int{1}, Simple: []bool{false, false, true}, Dividers: libDiv, StopOps: true},
+		check:    CheckC16,
+		pre:      enumerateStops,
 		nontriv: func(s Script, tr Trace) bool {
 			return tr.Stopped() && (uint(tr.StopInFlight) == s.H || tr.StopBlockedOut || len(tr.Deliveries) == 0)
 		},
@@ -309,11 +318,12 @@ func TestC16(t *testing.T) {
 
 func TestC17(t *testing.T) {
 	run(t, spec{
-		id:     "C17",
-		repeat: true,
-		rule:   "v1 plain scripts with AddInput (new priority, replacement of a live channel, re-add after removal) and RemoveInput interleaved with writes, receives and releases, while producers keep writing to removed and replaced channels; H is chosen so that every subset of the priorities is served; oracle: the number of items read from a channel does not change after RemoveInput / a replacing AddInput returned, tags and per-channel order (C02), in-flight <= H across the history (C01), everything read is delivered exactly once, GracefulStop completes; non-trivial = a removal with items of that priority in flight or a replacement with undelivered data in the old channel; distinct = distinct script JSON",
-		opts:   GenOpts{Vers: []int{1}, Simple: []bool{false}, Dividers: libDiv, AddRemove: true, NoZero: true},
-		check:  CheckC17,
+		id:       "C17",
+		hangMine: true,
+		repeat:   true,
+		rule:     "v1 plain scripts with AddInput (new priority, replacement of a live channel, re-add after removal) and RemoveInput interleaved with writes, receives and releases, while producers keep writing to removed and replaced channels; H is chosen so that every subset of the priorities is served; oracle: the number of items read from a channel does not change after RemoveInput / a replacing AddInput returned, tags and per-channel order (C02), in-flight <= H across the history (C01), everything read is delivered exactly once, GracefulStop completes; non-trivial = a removal with items of that priority in flight or a replacement with undelivered data in the old channel; distinct = distinct script JSON",
+		opts:     GenOpts{Vers: []int{1}, Simple: []bool{false}, Dividers: libDiv, AddRemove: true, NoZero: true},
+		check:    CheckC17,
 		nontriv: func(s Script, tr Trace) bool {
 			for _, ev := range tr.Inputs {
 				if !ev.Returned {
